@@ -440,3 +440,89 @@ Fixpoint git_command (a : list str) : option str :=
 (* git expands alias.<cmd> only when <cmd> is not a builtin (nor a git-<cmd> on PATH) *)
 Definition git_expands_alias (builtins : list str) (tbl : list (str * str)) (cmd : str) : bool :=
   negb (existsb (str_eqb cmd) builtins) && (match lookup cmd tbl with Some _ => true | None => false end).
+
+(* ------------------------------------------------------------------ git's own alias tokeniser
+   TRUSTED transcription of git 2.39 alias.c split_cmdline, validated against /usr/bin/git by
+   vlib/c18.py (rev-parse --sq-quote).  handle_alias hands it the configured value as it is (no
+   trimming; a shell alias is recognised only by a '!' at index 0).  The C loop is
+       unquoted isspace(c): end the word, skip the following blanks, ALWAYS open a new word
+       unquoted ' or double quote: open a quote;   c == quoted: close it
+       backslash unless inside single quotes: take the next char literally; none left = BAD_ENDING
+       at the end: unclosed quote = error; the last word is always there.
+   Here the two-char backslash step is one step with a pending flag [esc], and the inner skip loop
+   is the flag [ab] (just after a blank), so that one char is consumed per step. *)
+Definition git_space (c : cp) : bool := (c =? 9) || (c =? 10) || (c =? 13) || (c =? 32).  (* sane_ctype GIT_SPACE *)
+
+Inductive qstate := QNone | QSingle | QDouble.
+Definition is_single (q : qstate) : bool := match q with QSingle => true | _ => false end.
+Definition is_double (q : qstate) : bool := match q with QDouble => true | _ => false end.
+
+Fixpoint git_loop (s : str) (words : list str) (cur : str) (q : qstate) (esc ab : bool)
+  : option (list str) :=
+  match s with
+  | [] => if esc then None                                   (* SPLIT_CMDLINE_BAD_ENDING *)
+          else match q with
+               | QNone => Some (words ++ [cur])
+               | _ => None                                   (* SPLIT_CMDLINE_UNCLOSED_QUOTE *)
+               end
+  | c :: s' =>
+      if esc then git_loop s' words (cur ++ [c]) q false false
+      else match q with
+           | QNone =>
+               if git_space c then
+                 (if ab then git_loop s' words cur QNone false true
+                  else git_loop s' (words ++ [cur]) [] QNone false true)
+               else if c =? c_sq then git_loop s' words cur QSingle false false
+               else if c =? c_dq then git_loop s' words cur QDouble false false
+               else if c =? c_bs then git_loop s' words cur QNone true false
+               else git_loop s' words (cur ++ [c]) QNone false false
+           | QSingle =>
+               if c =? c_sq then git_loop s' words cur QNone false false
+               else git_loop s' words (cur ++ [c]) QSingle false false
+           | QDouble =>
+               if c =? c_dq then git_loop s' words cur QNone false false
+               else if c =? c_bs then git_loop s' words cur QDouble true false
+               else git_loop s' words (cur ++ [c]) QDouble false false
+           end
+  end.
+
+Definition git_split (v : str) : option (list str) := git_loop v [] [] QNone false false.
+
+(* Semantic edge classifier: runs git's automaton on the value, remembering only whether the
+   current word is empty, and answers true as soon as
+     - git would push an empty word (leading blank, empty quoted word, trailing blank, empty value), or
+     - an unquoted, unescaped char is whitespace for Rust's char::is_whitespace but not for git, or
+     - the value ends in an unquoted pending backslash. *)
+Fixpoint edge_loop (s : str) (cur_empty : bool) (q : qstate) (esc ab : bool) : bool :=
+  match s with
+  | [] => match q with
+          | QNone => if esc then true else cur_empty
+          | _ => false                      (* unclosed quote: both sides give up *)
+          end
+  | c :: s' =>
+      if esc then edge_loop s' false q false false
+      else match q with
+           | QNone =>
+               if git_space c then
+                 (if ab then edge_loop s' true QNone false true
+                  else if cur_empty then true
+                  else edge_loop s' true QNone false true)
+               else if is_ws c then true
+               else if c =? c_sq then edge_loop s' cur_empty QSingle false false
+               else if c =? c_dq then edge_loop s' cur_empty QDouble false false
+               else if c =? c_bs then edge_loop s' cur_empty QNone true false
+               else edge_loop s' false QNone false false
+           | QSingle =>
+               if c =? c_sq then edge_loop s' cur_empty QNone false false
+               else edge_loop s' false QSingle false false
+           | QDouble =>
+               if c =? c_dq then edge_loop s' cur_empty QNone false false
+               else if c =? c_bs then edge_loop s' cur_empty QDouble true false
+               else edge_loop s' false QDouble false false
+           end
+  end.
+
+Definition alias_edge (v : str) : bool := edge_loop v true QNone false false.
+
+(* a shell alias for the proxy (after trim_start) *)
+Definition is_shell_alias (v : str) : bool := first_is c_bang (trim_start v).
